@@ -34,7 +34,8 @@ func init() {
 			"non-trivial = a call whose operands are non-empty; distinct by (operation, operand WKBs)",
 		Assumptions: []string{"digests are of values the API returns (WKB / matrix / float bits / error text / callback id sequences)", "BulkLoad permuting its argument slice is documented constructor behaviour and outside the statement",
 			"workload goroutines share no monitor state between the start barrier and Wait (no mutex/atomic that would add happens-before edges)"},
-		MinNontrivial: 300,
+		MinNontrivial:  300,
+		CaseCPUSeconds: 3600, // one case = thousands of concurrent calls under the race detector
 		Variants: []run.Variant{
 			{Name: "p2", Env: []string{"GOMAXPROCS=3"}, Shards: 7},
 			{Name: "race", BuildFlags: []string{"-race"}, Env: []string{"GORACE=halt_on_error=0 log_path=" + raceLogPrefix()}, Shards: 4},
